@@ -35,6 +35,10 @@ def configs(tier):
         for mask in ('real', 'complex'):
             out.append({'name': 'fpm-%s-%dx%d-mask%dx%d' % (mask, m, n, Mm, Nm), 'kind': 'fpm', 'in': [m, n], 'mask': [Mm, Nm], 'mtype': mask})
             out.append({'name': 'babinet-%s-%dx%d-mask%dx%d' % (mask, m, n, Mm, Nm), 'kind': 'babinet', 'in': [m, n], 'mask': [Mm, Nm], 'mtype': mask})
+    # the rarely used shift of the focal-plane window, with different x and y components
+    for (m, n, Mm, Nm) in [(2, 2, 2, 2), (2, 3, 3, 2)]:
+        out.append({'name': 'fpm-real-%dx%d-mask%dx%d-shifted' % (m, n, Mm, Nm), 'kind': 'fpm', 'in': [m, n], 'mask': [Mm, Nm], 'mtype': 'real',
+                    'shift': 'sym'})
     out.append({'name': 'intensity', 'kind': 'intensity'})
     out.append({'name': 'amp-and-phase', 'kind': 'ampphase'})
     out.append({'name': 'sum-of-2d-modes', 'kind': 'modes'})
@@ -65,7 +69,8 @@ def params(cfg):
     if k in ('fixed',):
         return [('dx', {'pos': True}), ('wvl', {'pos': True}), ('efl', {'pos': True}), ('odx', {'pos': True}), ('sx', {}), ('sy', {})]
     if k in ('fpm', 'babinet'):
-        return [('dx', {'pos': True}), ('wvl', {'pos': True}), ('efl', {'pos': True}), ('odx', {'pos': True})]
+        return [('dx', {'pos': True}), ('wvl', {'pos': True}), ('efl', {'pos': True}), ('odx', {'pos': True})] + \
+            ([('sx', {}), ('sy', {})] if cfg.get('shift') == 'sym' else [])
     if k == 'ampphase':
         return [('wvl', {'pos': True}), ('a0', {}), ('a1', {}), ('p0', {}), ('p1', {})]
     if k == 'act':
@@ -141,8 +146,9 @@ def run(cfg, H):
         dx, wvl, efl, odx = [H.param(x) for x in ('dx', 'wvl', 'efl', 'odx')]
         mask = H.carray('mk', (Mm, Nm)) if cfg['mtype'] == 'complex' else H.rarray('mk', (Mm, Nm))
         if k == 'fpm':
-            KA = H.linear_map(lambda f: prop.Wavefront(f, wvl, dx).to_fpm_and_back(efl, mask, odx).data, (m, n))
-            KB = H.linear_map(lambda g: prop.Wavefront(g, wvl, dx).to_fpm_and_back_backprop(efl, mask, odx).data, (m, n), name='g')
+            shift = (H.param('sx'), H.param('sy')) if cfg.get('shift') == 'sym' else (0, 0)
+            KA = H.linear_map(lambda f: prop.Wavefront(f, wvl, dx).to_fpm_and_back(efl, mask, odx, shift=shift).data, (m, n))
+            KB = H.linear_map(lambda g: prop.Wavefront(g, wvl, dx).to_fpm_and_back_backprop(efl, mask, odx, shift=shift).data, (m, n), name='g')
         else:
             lyot = H.carray('ly', (m, n)) if cfg['mtype'] == 'complex' else H.rarray('ly', (m, n))
             KA = H.linear_map(lambda f: prop.Wavefront(f, wvl, dx).babinet(efl, lyot, mask, fpm_dx=odx).data, (m, n))
